@@ -2398,6 +2398,11 @@ class MOFWBEMConnection(BaseRepositoryConnection):
                                 IncludeQualifiers=True)
             inst.path = CIMInstanceName.from_instance(
                 cls, inst, namespace=ns)
+        else:
+            cls = self.GetClass(inst.classname,
+                                namespace=ns,
+                                LocalOnly=False,
+                                IncludeQualifiers=True)
 
         if "Abstract" in cls.qualifiers:
             warnings.warn(
